@@ -486,13 +486,564 @@ Qed.
 
 Lemma hs_scopes_add_variable : forall l (P : st -> Prop), hs P (scopes_add_variable l) anyv.
 Proof.
-  intros l P. unfold scopes_add_variable.
+  intros l P. eapply hs_pre with (P' := top); [intros; exact I|]. unfold scopes_add_variable.
   eapply hs_bind with (Q1 := fun id s => id < nleaf s).
-  - intros s s' _ _. exact I.
-  - eapply hs_pre; [|apply (hs_add_leaf l top)]. intros; exact I.
+  - apply mono_top.
+  - apply (hs_add_leaf l top).
   - intros id s Hv [_ Hid]. destruct (s_scopes s) as [|c t] eqn:E; [apply (hs_bad unit top anyv s Hv I)|].
     cbn [fst snd]. split; [|split; [unfold ext, nrec, nmc, nleaf; cbn; lia|intros; exact I]].
     unfold Valid in *. cbn. destruct Hv as [V1 V2 V3 V4 V5 V6 V7 V8 V9]. split; cbn; try assumption.
     rewrite E in V9. inversion V9 as [|? ? [Hk Hvars] Ht]. subst. constructor; [|exact Ht].
     split; [exact Hk|]. cbn. constructor; [exact Hid|exact Hvars].
+Qed.
+
+(** ---- lookups return allocated ids *)
+Lemma alookup_ok : forall b k (m : list (name * N)) v, amap_ok b m -> alookup k m = Some v -> v < b.
+Proof.
+  intros b k m v H. induction H as [|[k' v'] rest Hx Hr IH]; cbn; [discriminate|].
+  destruct (name_eqb k k'); [intros E; inversion E; subst; exact Hx|exact IH].
+Qed.
+Lemma nthN_Forall : forall A (Pr : A -> Prop) l i x, Forall Pr l -> nthN l i = Some x -> Pr x.
+Proof.
+  intros A Pr l i x H E. unfold nthN in E. apply nth_error_In in E. rewrite Forall_forall in H. apply H. exact E.
+Qed.
+Lemma nthN_lt : forall A (l : list A) i x, nthN l i = Some x -> i < lenN l.
+Proof.
+  intros A l i x E. unfold nthN in E. assert (H : (N.to_nat i < length l)%nat) by (apply nth_error_Some; congruence).
+  unfold lenN. lia.
+Qed.
+
+Lemma find_class_ok : forall x nm c, Valid x -> find_class x nm = Some c -> c < nrec x.
+Proof. intros x nm c Hv E. eapply alookup_ok; [apply (v_nclass _ _ _ _ Hv)|exact E]. Qed.
+Lemma find_def_ok : forall x nm c, Valid x -> find_def x nm = Some c -> c < nrec x.
+Proof. intros x nm c Hv E. eapply alookup_ok; [apply (v_ndef _ _ _ _ Hv)|exact E]. Qed.
+Lemma find_multiclass_ok : forall x nm c, Valid x -> find_multiclass x nm = Some c -> c < nmc x.
+Proof. intros x nm c Hv E. eapply alookup_ok; [apply (v_nmc _ _ _ _ Hv)|exact E]. Qed.
+Lemma find_defset_ok : forall x nm c, Valid x -> find_defset x nm = Some c -> c < nleaf x.
+Proof. intros x nm c Hv E. eapply alookup_ok; [apply (v_ndset _ _ _ _ Hv)|exact E]. Qed.
+
+Lemma find_field_okB : forall a c recs fuel id nm f,
+  Forall (rec_okB a c) recs -> Scope.find_field fuel recs id nm = Some f -> f < c.
+Proof.
+  intros a c recs. induction fuel as [|fuel IH]; intros id nm f Hr E; cbn in E; [discriminate|].
+  destruct (nthN recs id) as [r|] eqn:En; [|discriminate].
+  pose proof (nthN_Forall _ _ _ _ _ Hr En) as (Ha & Hb & Hc).
+  destruct (alookup nm (rc_fields r)) as [f0|] eqn:Ef.
+  - inversion E. subst. eapply alookup_ok; eassumption.
+  - clear Hc. induction (rc_parents r) as [|p ps IHps]; [discriminate|].
+    destruct (Scope.find_field fuel recs p nm) as [f1|] eqn:E1.
+    + inversion E. subst. eapply IH; eassumption.
+    + apply IHps. exact E.
+Qed.
+Lemma find_field_ok : forall x id nm f, Valid x -> Scope.find_field (rec_fuel x) (s_recs x) id nm = Some f -> f < nleaf x.
+Proof. intros x id nm f Hv E. eapply find_field_okB; [apply (v_recs _ _ _ _ Hv)|exact E]. Qed.
+Lemma ty_find_field_ok : forall x t nm f, Valid x -> ty_find_field x t nm = Some f -> f < nleaf x.
+Proof. intros x t nm f Hv E. unfold ty_find_field in E. destruct t; try discriminate. eapply find_field_ok; eassumption. Qed.
+
+Lemma find_map_scopes : forall B (g : scope -> option B) (Pr : scope -> Prop) scs y,
+  Forall Pr scs -> find_map g scs = Some y -> exists c, Pr c /\ g c = Some y.
+Proof.
+  intros B g Pr scs y H. induction H as [|c t Hc Ht IH]; cbn; [discriminate|].
+  destruct (g c) eqn:E; [intros E2; inversion E2; subst; eauto|exact IH].
+Qed.
+Lemma current_record_ok : forall x rid, Valid x -> current_record_id x = Some rid -> rid < nrec x.
+Proof.
+  intros x rid Hv E. destruct (find_map_scopes _ _ _ _ _ (v_scopes _ _ _ _ Hv) E) as (c & [Hk _] & Hc).
+  unfold sc_record_id in Hc. destruct (sc_kind c); try discriminate. inversion Hc. subst. exact Hk.
+Qed.
+Lemma current_multiclass_ok : forall x mid, Valid x -> current_multiclass_id x = Some mid -> mid < nmc x.
+Proof.
+  intros x rid Hv E. destruct (find_map_scopes _ _ _ _ _ (v_scopes _ _ _ _ Hv) E) as (c & [Hk _] & Hc).
+  unfold sc_multiclass_id in Hc. destruct (sc_kind c); try discriminate. inversion Hc. subst. exact Hk.
+Qed.
+
+Lemma scope_find_ok : forall x c nm sym, Valid x -> scope_okB (nrec x) (nmc x) (nleaf x) c ->
+  scope_find x c nm = Some sym -> sym_ok x sym.
+Proof.
+  intros x c nm sym Hv [Hk Hvars] E. unfold scope_find in E.
+  destruct (sc_find_variable c nm) as [v|] eqn:Ev.
+  - inversion E. subst. unfold sc_find_variable in Ev.
+    destruct (alookup nm (sc_vars c)) eqn:Ea.
+    + inversion Ev. subst. cbn. eapply alookup_ok; eassumption.
+    + destruct (sc_kind c); try discriminate. destruct (name_eqb nm nm0); [|discriminate].
+      inversion Ev. subst. exact Hk.
+  - destruct (sc_kind c) eqn:Ek; try discriminate.
+    + destruct (Scope.find_field (rec_fuel x) (s_recs x) id nm) eqn:Ef.
+      * inversion E. subst. cbn. eapply find_field_ok; eassumption.
+      * destruct (nthN (s_recs x) id) as [r|] eqn:En; [|discriminate].
+        pose proof (nthN_Forall _ _ _ _ _ (v_recs _ _ _ _ Hv) En) as (Ha & _ & _).
+        destruct (alookup nm (rc_targs r)) eqn:Et; [|discriminate]. inversion E. subst. cbn. eapply alookup_ok; eassumption.
+    + destruct (nthN (s_mcs x) id) as [m|] eqn:En; [|discriminate].
+      pose proof (nthN_Forall _ _ _ _ _ (v_mcs _ _ _ _ Hv) En) as (Ha & _).
+      destruct (alookup nm (mc_targs m)) eqn:Et; [|discriminate]. inversion E. subst. cbn. eapply alookup_ok; eassumption.
+Qed.
+Lemma resolve_id_ok : forall x nm sym, Valid x -> resolve_id x nm = Some sym -> sym_ok x sym.
+Proof.
+  intros x nm sym Hv E. unfold resolve_id in E. destruct (find_local x nm) as [id|] eqn:El.
+  - inversion E. subst. unfold find_local in El.
+    destruct (find_map_scopes _ _ _ _ _ (v_scopes _ _ _ _ Hv) El) as (c & Hc & Hf). eapply scope_find_ok; eassumption.
+  - destruct (find_def x nm) eqn:Ed.
+    + inversion E. subst. cbn. eapply find_def_ok; eassumption.
+    + destruct (find_defset x nm) eqn:Es; [|discriminate]. inversion E. subst. cbn. eapply find_defset_ok; eassumption.
+Qed.
+
+(** ---- automation *)
+Lemma mono_opt : forall A (o : option A) (Q : A -> st -> Prop),
+  (forall x, mono (Q x)) -> mono (fun s => forall x, o = Some x -> Q x s).
+Proof. intros A o Q H s s' He Hq x Hx. eapply H; [exact He|apply Hq; exact Hx]. Qed.
+Lemma mono_anyv : forall A (x : A), mono (anyv x).
+Proof. intros A x s s' _ _. exact I. Qed.
+
+Ltac hmono :=
+  repeat first
+    [ apply mono_top | apply mono_snap | apply mono_and | apply mono_sym_ok | apply mono_kind_ok
+    | apply mono_lt_nrec | apply mono_lt_nmc | apply mono_lt_nleaf | apply mono_anyv
+    | apply mono_opt; intros ? | assumption
+    | (intros ? ? ? ?; exact I) ].
+
+Ltac lookups :=
+  repeat match goal with
+  | H : _ /\ _ |- _ => destruct H
+  end;
+  repeat match goal with
+  | Hv : Valid ?x, E : find_class ?x _ = Some ?c |- _ =>
+      lazymatch goal with _ : c < nrec x |- _ => fail | _ => pose proof (find_class_ok _ _ _ Hv E) end
+  | Hv : Valid ?x, E : find_def ?x _ = Some ?c |- _ =>
+      lazymatch goal with _ : c < nrec x |- _ => fail | _ => pose proof (find_def_ok _ _ _ Hv E) end
+  | Hv : Valid ?x, E : find_multiclass ?x _ = Some ?c |- _ =>
+      lazymatch goal with _ : c < nmc x |- _ => fail | _ => pose proof (find_multiclass_ok _ _ _ Hv E) end
+  | Hv : Valid ?x, E : ty_find_field ?x _ _ = Some ?c |- _ =>
+      lazymatch goal with _ : c < nleaf x |- _ => fail | _ => pose proof (ty_find_field_ok _ _ _ _ Hv E) end
+  | Hv : Valid ?x, E : Scope.find_field (rec_fuel ?x) (s_recs ?x) _ _ = Some ?c |- _ =>
+      lazymatch goal with _ : c < nleaf x |- _ => fail | _ => pose proof (find_field_ok _ _ _ _ Hv E) end
+  | Hv : Valid ?x, E : current_record_id ?x = Some ?c |- _ =>
+      lazymatch goal with _ : c < nrec x |- _ => fail | _ => pose proof (current_record_ok _ _ Hv E) end
+  | Hv : Valid ?x, E : current_multiclass_id ?x = Some ?c |- _ =>
+      lazymatch goal with _ : c < nmc x |- _ => fail | _ => pose proof (current_multiclass_ok _ _ Hv E) end
+  | Hv : Valid ?x, E : resolve_id ?x _ = Some ?c |- _ =>
+      lazymatch goal with _ : sym_ok x c |- _ => fail | _ => pose proof (resolve_id_ok _ _ _ Hv E) end
+  end.
+
+Ltac solve_ok :=
+  intros; lookups;
+  first [ exact I
+        | match goal with H : sym_ok ?x ?id, He : ext ?x ?s |- sym_ok ?s ?id => exact (sym_ok_mono _ _ _ He H) end
+        | assumption
+        | (unfold sym_ok, kind_ok, ext in *; cbn [sym_okB kind_okB] in *; lia) ].
+
+Ltac hret := apply hs_ret; intros; exact I.
+
+(** ---- the traversal of Indexer.v *)
+Lemma h_leaf_of : forall i P, mono P -> hs P (leaf_of i) anyv.
+Proof.
+  intros i P HP. unfold leaf_of. eapply hs_bind; [exact HP|apply hs_state|]. intros x.
+  apply hs_lift. intros; exact I.
+Qed.
+
+Lemma h_index_ty : forall t P, mono P -> hs P (index_ty t) anyv.
+Proof.
+  induction t; intros P HP; cbn [index_ty]; try hret.
+  - eapply hs_bind; [exact HP|apply IHt; exact HP|]. intros x. hret.
+  - eapply hs_bind; [exact HP|apply hs_here|]. intros loc.
+    eapply hs_bind; [hmono|apply hs_state|]. intros x.
+    destruct (find_class x (i_name i)) eqn:E.
+    + eapply hs_seq; [hmono|apply hs_add_reference; solve_ok|hret].
+    + eapply hs_seq; [hmono|apply hs_error|apply hs_none].
+Qed.
+
+Lemma h_index_annot : forall op an r P, mono P -> hs P (index_annot op an r) anyv.
+Proof.
+  intros op an r P HP. unfold index_annot. destruct (bang_annot op).
+  - eapply hs_seq; [exact HP| |hret]. destruct an as [[t tr]|]; [apply hs_err; exact HP|hret].
+  - destruct an as [[t tr]|].
+    + eapply hs_any. apply hs_try. apply h_index_ty. exact HP.
+    + eapply hs_seq; [exact HP|apply hs_err; exact HP|hret].
+  - destruct an as [[t tr]|]; [|hret]. eapply hs_any. apply hs_try. apply h_index_ty. exact HP.
+Qed.
+Lemma h_check_arity : forall op vs r P, mono P -> hs P (check_arity op vs r) anyv.
+Proof. intros. unfold check_arity. destruct (arity_ok _ _); [hret|apply hs_err; assumption]. Qed.
+
+Definition values_ok (n : nat) : Prop :=
+  (forall v P, mono P -> hs P (index_value n v) anyv) /\
+  (forall x P, mono P -> hs P (index_inner n x) anyv) /\
+  (forall sv P, mono P -> hs P (index_simple n sv) anyv) /\
+  (forall a P, mono P -> hs P (index_arg n a) anyv) /\
+  (forall op an vs r P, mono P -> hs P (index_bang n op an vs r) anyv) /\
+  (forall op a vs r P, mono P -> hs P (index_bang_ops n op a vs r) anyv).
+
+Lemma h_sufs_loop : forall (l : list suffix) t P, mono P ->
+  hs P ((fix sufs_loop (t : mty) (l : list suffix) : M mty :=
+           match l with
+           | [] => ret t
+           | sf :: r =>
+             bind match sf with
+                   | SufRange => lift (match t with MBits _ => Some MBit | _ => None end)
+                   | SufSlice single => if single then lift (element_typ t) else ret t
+                   | SufField i fr =>
+                     bind (here (i_rng i)) (fun loc =>
+                     bind state (fun s =>
+                     match ty_find_field s t (i_name i) with
+                     | None => match t with MUnknown => none | _ => seq (err fr DCannotAccessField) none end
+                     | Some f => seq (add_reference (SyLeaf f) loc) (bind (leaf_of f) (fun lf => ret (lf_ty lf)))
+                     end))
+                   end (fun t' => sufs_loop t' r)
+           end) t l) anyv.
+Proof.
+  induction l as [|sf r IH]; intros t P HP; [hret|].
+  eapply hs_bind with (Q1 := anyv); [exact HP| |intros t'; apply IH; hmono].
+  destruct sf as [|single|i fr].
+  - apply hs_lift. intros; exact I.
+  - destruct single; [apply hs_lift; intros; exact I|hret].
+  - eapply hs_bind; [exact HP|apply hs_here|]. intros loc.
+    eapply hs_bind; [hmono|apply hs_state|]. intros x.
+    destruct (ty_find_field x t (i_name i)) eqn:E.
+    + eapply hs_seq; [hmono|apply hs_add_reference; solve_ok|].
+      eapply hs_bind; [hmono|apply h_leaf_of; hmono|]. intros lf. hret.
+    + destruct t; try (eapply hs_seq; [hmono|apply hs_err; hmono|apply hs_none]). apply hs_none.
+Qed.
+
+Lemma h_bind_var : forall i t P, mono P ->
+  hs P (bind (here (i_rng i)) (fun loc => scopes_add_variable (mkLeaf LVar (i_name i) t false loc))) anyv.
+Proof. intros. eapply hs_bind; [assumption|apply hs_here|]. intros loc. apply hs_scopes_add_variable. Qed.
+
+Lemma values_ok_all : forall n, values_ok n.
+Proof.
+  induction n as [|n (IHv & IHi & IHs & IHa & IHb & IHo)].
+  - split; [|split; [|split; [|split; [|split]]]].
+    + intros v P HP. apply hs_bad.
+    + intros x P HP. apply hs_bad.
+    + intros sv P HP. apply hs_bad.
+    + intros a P HP. apply hs_bad.
+    + intros op an vs r P HP. apply hs_bad.
+    + intros op a vs r P HP. apply hs_bad.
+  - assert (Hvals : forall vs P, mono P -> hs P (iterM (index_value n) vs) anyv)
+      by (intros; apply hs_iterM; [assumption|intros; apply IHv; assumption]).
+    assert (Hmap : forall vs P, mono P -> hs P (mapM_opt (index_value n) vs) anyv)
+      by (intros; apply hs_mapM_opt; [assumption|intros; apply IHv; assumption]).
+    split; [|split; [|split; [|split; [|split]]]].
+    + (* index_value *)
+      intros [r [|first rest]] P HP; cbn [index_value]; [apply hs_none|].
+      eapply hs_bind; [exact HP|apply hs_try; apply IHi; exact HP|]. intros t1.
+      eapply hs_seq; [hmono|apply hs_iterM; [hmono|intros; apply IHi; hmono]|].
+      destruct rest; [apply hs_lift; intros; exact I|hret].
+    + (* index_inner *)
+      intros [sv sufs] P HP; cbn [index_inner].
+      eapply hs_bind; [exact HP|apply IHs; exact HP|]. intros t0. apply h_sufs_loop. hmono.
+    + (* index_simple *)
+      intros sv P HP. destruct sv; cbn [index_simple]; try hret.
+      * eapply hs_seq; [exact HP|apply Hvals; exact HP|hret].
+      * eapply hs_bind; [exact HP|apply Hmap; exact HP|]. intros os. hret.
+      * eapply hs_seq; [exact HP|apply Hvals; exact HP|hret].
+      * (* SId *)
+        eapply hs_bind; [exact HP|apply hs_here|]. intros loc.
+        eapply hs_bind; [hmono|apply hs_state|]. intros x.
+        destruct (resolve_id x (i_name i)) as [sym|] eqn:E.
+        -- eapply hs_seq; [hmono|apply hs_add_reference; solve_ok|].
+           eapply hs_bind; [hmono|apply hs_state|]. intros x'.
+           destruct sym.
+           ++ eapply hs_bind with (Q1 := anyv); [hmono|apply hs_lift; intros; exact I|]. intros rc.
+              destruct (rc_class rc); [apply hs_none|].
+              eapply hs_bind with (Q1 := anyv); [hmono|apply hs_lift; intros; exact I|]. intros d. hret.
+           ++ apply hs_none.
+           ++ eapply hs_bind with (Q1 := anyv); [hmono|apply hs_lift; intros; exact I|]. intros lf.
+              destruct (lf_kind lf); try hret. apply hs_none.
+        -- destruct (name_eqb (i_name i) name_NAME); [hret|].
+           eapply hs_seq; [hmono|apply hs_error|apply hs_none].
+      * (* SClassVal *)
+        eapply hs_bind; [exact HP|apply hs_here|]. intros loc.
+        eapply hs_bind; [hmono|apply hs_state|]. intros x.
+        destruct (find_class x (i_name i)) as [cid|] eqn:E.
+        -- eapply hs_seq; [hmono|apply hs_add_reference; solve_ok|].
+           eapply hs_bind; [hmono|apply hs_state|]. intros x1.
+           eapply hs_bind with (Q1 := anyv); [hmono|apply hs_lift; intros; exact I|]. intros rc.
+           eapply hs_bind with (Q1 := anyv); [hmono|apply hs_mapM_opt; [hmono|intros; apply IHa; hmono]|]. intros avs.
+           eapply hs_bind; [hmono|apply hs_state|]. intros x2.
+           eapply hs_seq; [hmono|apply hs_emit; hmono|hret].
+        -- eapply hs_seq; [hmono|apply hs_error|apply hs_none].
+      * (* SBang *) apply IHb. exact HP.
+      * eapply hs_seq; [exact HP|apply Hvals; exact HP|apply hs_none].
+    + (* index_arg *)
+      intros a P HP. destruct a; cbn [index_arg].
+      * eapply hs_bind; [exact HP|apply hs_try; apply IHv; exact HP|]. intros o. hret.
+      * eapply hs_bind; [exact HP|apply hs_try; apply IHv; exact HP|]. intros o. hret.
+      * eapply hs_seq; [exact HP|apply hs_err; exact HP|apply hs_none].
+    + (* index_bang *)
+      intros op an vs r P HP. cbn [index_bang].
+      eapply hs_bind; [exact HP|apply h_index_annot; exact HP|]. intros a.
+      eapply hs_seq; [hmono|apply h_check_arity; hmono|apply IHo; hmono].
+    + (* index_bang_ops *)
+      intros op a vs r P HP. cbn [index_bang_ops].
+      assert (Hl : forall (o : option value) (P0 : st -> Prop), hs P0 (lift o) anyv) by (intros; apply hs_lift; intros; exact I).
+      assert (Hdflt :
+        hs P (match bang_check_each op with
+              | Some expected =>
+                seq (iterM (fun v =>
+                         bind (try_ (index_value n v)) (fun o =>
+                         match o with
+                         | Some t => bind state (fun s => if can_cast s t expected then ret tt else err (value_rng v) DOperand)
+                         | None => ret tt
+                         end)) vs)
+                    (bind state (fun s => lift (snd (bang_post s op a []))))
+              | None =>
+                bind (mapM_opt (index_value n) vs) (fun os =>
+                bind state (fun s =>
+                let '(ds, t) := bang_post s op a (combine (map value_rng vs) os) in
+                seq (iterM (fun d => err (fst d) DOperand) ds) (lift t)))
+              end) anyv).
+      { destruct (bang_check_each op) as [expected|].
+        - eapply hs_seq; [exact HP| |].
+          + apply hs_iterM; [exact HP|]. intros v _.
+            eapply hs_bind; [exact HP|apply hs_try; apply IHv; exact HP|]. intros o.
+            destruct o as [t|]; [|hret].
+            eapply hs_bind; [hmono|apply hs_state|]. intros x.
+            destruct (can_cast x t expected); [hret|apply hs_err; hmono].
+          + eapply hs_bind; [exact HP|apply hs_state|]. intros x. apply hs_lift. intros; exact I.
+        - eapply hs_bind; [exact HP|apply Hmap; exact HP|]. intros os.
+          eapply hs_bind; [hmono|apply hs_state|]. intros x.
+          destruct (bang_post x op a (combine (map value_rng vs) os)) as [ds t].
+          eapply hs_seq; [hmono| |apply hs_lift; intros; exact I].
+          apply hs_iterM; [hmono|]. intros d _. apply hs_err. hmono. }
+      destruct op; try exact Hdflt; clear Hdflt.
+      * (* XFilter *)
+        eapply hs_bind; [exact HP|apply Hl|]. intros var.
+        eapply hs_bind; [hmono|apply Hl|]. intros lst.
+        eapply hs_bind; [hmono|apply Hl|]. intros pred.
+        eapply hs_bind; [hmono|apply IHv; hmono|]. intros lt.
+        eapply hs_bind with (Q1 := anyv); [hmono|apply hs_lift; intros; exact I|]. intros vt.
+        eapply hs_bind with (Q1 := anyv); [hmono|apply hs_lift; intros; exact I|]. intros i.
+        eapply hs_seq; [hmono| |hret].
+        apply hs_scoped; [hmono|intros; hmono|solve_ok|].
+        eapply hs_seq; [hmono|apply h_bind_var; hmono|apply IHv; hmono].
+      * (* XFoldl *)
+        eapply hs_bind; [exact HP|apply Hl|]. intros init.
+        eapply hs_bind; [hmono|apply Hl|]. intros lst.
+        eapply hs_bind; [hmono|apply Hl|]. intros acc.
+        eapply hs_bind; [hmono|apply Hl|]. intros var.
+        eapply hs_bind; [hmono|apply Hl|]. intros expr.
+        eapply hs_bind; [hmono|apply IHv; hmono|]. intros it.
+        eapply hs_bind; [hmono|apply IHv; hmono|]. intros lt.
+        eapply hs_bind with (Q1 := anyv); [hmono|apply hs_lift; intros; exact I|]. intros et.
+        eapply hs_bind with (Q1 := anyv); [hmono|apply hs_lift; intros; exact I|]. intros ia.
+        eapply hs_bind with (Q1 := anyv); [hmono|apply hs_lift; intros; exact I|]. intros iv.
+        eapply hs_seq; [hmono| |hret].
+        apply hs_scoped; [hmono|intros; hmono|solve_ok|].
+        eapply hs_seq; [hmono|apply h_bind_var; hmono|].
+        eapply hs_seq; [hmono|apply h_bind_var; hmono|apply IHv; hmono].
+      * (* XForEach *)
+        eapply hs_bind; [exact HP|apply Hl|]. intros var.
+        eapply hs_bind; [hmono|apply Hl|]. intros sq.
+        eapply hs_bind; [hmono|apply Hl|]. intros expr.
+        eapply hs_bind; [hmono|apply IHv; hmono|]. intros st_.
+        eapply hs_bind with (Q1 := anyv); [hmono|apply hs_lift; intros; exact I|]. intros vt.
+        eapply hs_bind with (Q1 := anyv); [hmono|apply hs_lift; intros; exact I|]. intros i.
+        eapply hs_bind; [hmono| |intros et; hret].
+        apply hs_try. apply hs_scoped; [hmono|intros; hmono|solve_ok|].
+        eapply hs_seq; [hmono|apply h_bind_var; hmono|apply IHv; hmono].
+Qed.
+
+Lemma h_index_value : forall n v P, mono P -> hs P (index_value n v) anyv.
+Proof. intros n. apply (values_ok_all n). Qed.
+Lemma h_index_arg : forall n a P, mono P -> hs P (index_arg n a) anyv.
+Proof. intros n. apply (values_ok_all n). Qed.
+Lemma h_index_args : forall n l P, mono P -> hs P (index_args n l) anyv.
+Proof. intros. unfold index_args. apply hs_mapM_opt; [assumption|]. intros. apply h_index_arg. assumption. Qed.
+Lemma h_values : forall n vs P, mono P -> hs P (iterM (index_value n) vs) anyv.
+Proof. intros. apply hs_iterM; [assumption|]. intros. apply h_index_value. assumption. Qed.
+
+Lemma h_resolve_class : forall n c P, mono P -> hs P (resolve_class_ref_as_class n c) (fun cid s => cid < nrec s).
+Proof.
+  intros n [i args r] P HP. cbn [resolve_class_ref_as_class].
+  eapply hs_bind; [exact HP|apply hs_here|]. intros loc.
+  eapply hs_bind; [hmono|apply hs_state|]. intros x.
+  destruct (find_class x (i_name i)) as [cid|] eqn:E.
+  - eapply hs_seq; [hmono|apply hs_add_reference; solve_ok|].
+    eapply hs_bind; [hmono|apply hs_state|]. intros x1.
+    eapply hs_bind with (Q1 := anyv); [hmono|apply hs_lift; intros; exact I|]. intros rc.
+    eapply hs_bind with (Q1 := anyv); [hmono|apply h_index_args; hmono|]. intros avs.
+    eapply hs_bind; [hmono|apply hs_state|]. intros x2.
+    eapply hs_seq; [hmono|apply hs_emit; hmono|]. apply hs_ret. solve_ok.
+  - eapply hs_seq; [hmono|apply hs_error|apply hs_none].
+Qed.
+Lemma h_resolve_multiclass : forall n c P, mono P -> hs P (resolve_class_ref_as_multiclass n c) (fun mid s => mid < nmc s).
+Proof.
+  intros n [i args r] P HP. cbn [resolve_class_ref_as_multiclass].
+  eapply hs_bind; [exact HP|apply hs_here|]. intros loc.
+  eapply hs_bind; [hmono|apply hs_state|]. intros x.
+  destruct (find_multiclass x (i_name i)) as [mid|] eqn:E.
+  - eapply hs_seq; [hmono|apply hs_add_reference; solve_ok|].
+    eapply hs_bind; [hmono|apply hs_state|]. intros x1.
+    eapply hs_bind with (Q1 := anyv); [hmono|apply hs_lift; intros; exact I|]. intros rc.
+    eapply hs_bind with (Q1 := anyv); [hmono|apply h_index_args; hmono|]. intros avs.
+    eapply hs_bind; [hmono|apply hs_state|]. intros x2.
+    eapply hs_seq; [hmono|apply hs_emit; hmono|]. apply hs_ret. solve_ok.
+  - eapply hs_seq; [hmono|apply hs_error|apply hs_none].
+Qed.
+
+Lemma h_index_parents : forall n ps P, mono P -> hs P (index_parents n ps) anyv.
+Proof.
+  intros n ps P HP. unfold index_parents.
+  eapply hs_bind; [exact HP|apply hs_state|]. intros x.
+  destruct (current_record_id x) as [rid|] eqn:Er.
+  - apply hs_iterM; [hmono|]. intros cr _.
+    eapply hs_bind; [hmono|apply hs_try; apply h_resolve_class; hmono|]. intros o.
+    destruct o as [cid|]; [|hret].
+    destruct (cid =? rid); [apply hs_err; hmono; intros s s' He Hq y Hy; inversion Hy; subst; specialize (Hq _ eq_refl); cbn in *; destruct He; lia|].
+    apply hs_rec_add_parent. intros s Hv [_ Hq]. apply (Hq cid eq_refl).
+  - destruct (current_multiclass_id x) as [mid|] eqn:Em.
+    + apply hs_iterM; [hmono|]. intros cr _.
+      eapply hs_bind; [hmono|apply hs_try; apply h_resolve_multiclass; hmono|]. intros o.
+      destruct o as [p|]; [|hret].
+      apply hs_mc_add_parent. intros s Hv [_ Hq]. apply (Hq p eq_refl).
+    + destruct (current_defm_id x); [|apply hs_bad].
+      apply hs_iterM; [hmono|]. intros cr _. eapply hs_any. apply h_resolve_multiclass. hmono.
+Qed.
+
+Lemma h_index_targ : forall n a P, mono P -> hs P (index_targ n a) anyv.
+Proof.
+  intros n [t i dflt] P HP. cbn [index_targ].
+  eapply hs_bind; [exact HP|apply hs_here|]. intros loc.
+  eapply hs_bind; [hmono|apply h_index_ty; hmono|]. intros typ.
+  eapply hs_bind; [hmono|apply hs_add_leaf|]. intros tid.
+  eapply hs_bind; [hmono|apply hs_state|]. intros x.
+  eapply hs_seq; [hmono| |].
+  - destruct (current_record_id x) as [rid|]; [apply hs_rec_add_targ; solve_ok|].
+    destruct (current_multiclass_id x) as [mid|]; [apply hs_mc_add_targ; solve_ok|apply hs_bad].
+  - destruct dflt as [v|]; [|apply hs_none].
+    eapply hs_seq; [hmono|apply h_index_value; hmono|apply hs_none].
+Qed.
+
+Lemma h_index_name_value : forall v P, mono P -> hs P (index_name_value v) anyv.
+Proof.
+  intros [r [|[[] sufs] rest]] P HP; cbn [index_name_value]; try apply hs_none.
+  eapply hs_bind; [exact HP|apply hs_here|]. intros loc. hret.
+Qed.
+
+Lemma h_index_defvar : forall n i v P, mono P -> hs P (index_defvar n i v) anyv.
+Proof.
+  intros n i v P HP. unfold index_defvar.
+  eapply hs_bind; [exact HP|apply hs_here|]. intros loc.
+  eapply hs_bind; [hmono|apply hs_try; apply h_index_value; hmono|]. intros o.
+  apply hs_scopes_add_variable.
+Qed.
+
+Lemma h_index_item : forall n it P, mono P -> hs P (index_item n it) anyv.
+Proof.
+  intros n it P HP. destruct it as [t i v|i v|i v|c m|v]; cbn [index_item].
+  - eapply hs_bind; [exact HP|apply hs_state|]. intros x.
+    destruct (current_record_id x) as [rid|]; [|apply hs_bad].
+    eapply hs_bind; [hmono|apply hs_here|]. intros loc.
+    eapply hs_bind; [hmono|apply h_index_ty; hmono|]. intros typ.
+    eapply hs_bind; [hmono|apply hs_add_leaf|]. intros fid.
+    eapply hs_seq; [hmono|apply hs_rec_add_field; solve_ok|].
+    eapply hs_bind with (Q1 := anyv); [hmono|apply hs_lift; intros; exact I|]. intros v'.
+    eapply hs_bind; [hmono|apply h_index_value; hmono|]. intros vt.
+    eapply hs_bind; [hmono|apply hs_state|]. intros x'.
+    destruct (can_cast x' vt typ); [apply hs_none|apply hs_err; hmono].
+  - eapply hs_bind; [exact HP|apply hs_here|]. intros loc.
+    eapply hs_bind; [hmono|apply hs_state|]. intros x.
+    destruct (current_record_id x) as [rid|]; [|apply hs_bad].
+    eapply hs_bind with (Q1 := fun fid s => fid < nleaf s); [hmono|apply hs_lift; solve_ok|]. intros fid.
+    eapply hs_bind; [hmono|apply h_leaf_of; hmono|]. intros f.
+    eapply hs_bind; [hmono|apply hs_add_leaf|]. intros nid.
+    eapply hs_seq; [hmono|apply hs_rec_add_field; solve_ok|].
+    eapply hs_seq; [hmono|apply hs_add_reference; solve_ok|].
+    eapply hs_bind; [hmono|apply h_index_value; hmono|]. intros vt.
+    eapply hs_bind; [hmono|apply hs_state|]. intros x'.
+    destruct (can_cast x' vt (lf_ty f)); [apply hs_none|apply hs_err; hmono].
+  - apply h_index_defvar. exact HP.
+  - eapply hs_seq; [exact HP|apply h_index_value; exact HP|].
+    eapply hs_seq; [exact HP|apply h_index_value; exact HP|apply hs_none].
+  - eapply hs_seq; [exact HP|apply h_index_value; exact HP|apply hs_none].
+Qed.
+
+Lemma h_record_body : forall n ps b P, mono P -> hs P (index_record_body n ps b) anyv.
+Proof.
+  intros n ps b P HP. unfold index_record_body.
+  eapply hs_seq; [exact HP|apply h_index_parents; exact HP|].
+  apply hs_iterM; [exact HP|]. intros it _. apply h_index_item. exact HP.
+Qed.
+Lemma h_targs : forall n (o : option (list targ)) P, mono P ->
+  hs P (match o with Some l => iterM (index_targ n) l | None => ret tt end) anyv.
+Proof.
+  intros n [l|] P HP; [|hret]. apply hs_iterM; [exact HP|]. intros a _. apply h_index_targ. exact HP.
+Qed.
+
+Lemma h_index_stmt : forall files n x P, mono P -> hs P (index_stmt files n x) anyv.
+Proof.
+  intros files n. induction n as [|n IH]; intros x P HP; [apply hs_bad|].
+  assert (Hl : forall l P0, mono P0 -> hs P0 (iterM (index_stmt files n) l) anyv)
+    by (intros l P0 HP0; apply hs_iterM; [exact HP0|]; intros y _; apply IH; exact HP0).
+  destruct x; cbn [index_stmt].
+  - (* include *)
+    destruct target as [f|]; [|eapply hs_seq; [exact HP|apply hs_err; exact HP|apply hs_none]].
+    eapply hs_bind; [exact HP|apply hs_state|]. intros x.
+    destruct (existsb (N.eqb f) (s_indexed x)); [apply hs_none|].
+    eapply hs_seq; [hmono|apply hs_mark_indexed|].
+    eapply hs_bind with (Q1 := anyv); [hmono|apply hs_lift; intros; exact I|]. intros body.
+    eapply hs_seq; [hmono|apply hs_push_file|].
+    eapply hs_seq; [hmono|apply Hl; hmono|apply hs_pop_file].
+  - eapply hs_seq; [exact HP|apply h_index_value; exact HP|].
+    eapply hs_seq; [exact HP|apply h_index_value; exact HP|apply hs_none].
+  - (* class *)
+    eapply hs_bind; [exact HP|apply hs_here|]. intros loc.
+    eapply hs_bind; [hmono|apply hs_add_record|]. intros rid.
+    apply hs_scoped; [hmono|intros; hmono|solve_ok|].
+    eapply hs_seq; [hmono|apply h_targs; hmono|apply h_record_body; hmono].
+  - (* def *)
+    eapply hs_bind with (Q1 := fun did s => did < nrec s); [exact HP| |].
+    + destruct nm as [v|].
+      * eapply hs_bind; [exact HP|apply h_index_name_value; exact HP|]. intros p. apply hs_add_record.
+      * eapply hs_seq; [exact HP|apply hs_next_anonymous|].
+        eapply hs_bind; [exact HP|apply hs_here|]. intros loc. apply hs_add_anonymous_def.
+    + intros did. apply hs_scoped; [hmono|intros; hmono|solve_ok|]. apply h_record_body. hmono.
+  - (* defm *)
+    eapply hs_bind with (Q1 := fun did s => did < nleaf s); [exact HP| |].
+    + destruct nm as [v|].
+      * eapply hs_bind; [exact HP|apply h_index_name_value; exact HP|]. intros p. apply hs_add_leaf.
+      * eapply hs_seq; [exact HP|apply hs_next_anonymous|].
+        eapply hs_bind; [exact HP|apply hs_here|]. intros loc. apply hs_add_leaf_nopos.
+    + intros did. apply hs_scoped; [hmono|intros; hmono|solve_ok|]. apply h_index_parents. hmono.
+  - (* defset *)
+    eapply hs_bind; [exact HP|apply hs_here|]. intros loc.
+    eapply hs_bind; [hmono|apply h_index_ty; hmono|]. intros typ.
+    eapply hs_bind; [hmono|apply hs_add_defset|]. intros did.
+    apply hs_scoped; [hmono|intros; hmono|solve_ok|]. apply Hl. hmono.
+  - apply h_index_defvar. exact HP.
+  - eapply hs_seq; [exact HP|apply h_index_value; exact HP|apply hs_none].
+  - (* foreach *)
+    eapply hs_bind; [exact HP|apply hs_here|]. intros loc.
+    eapply hs_bind with (Q1 := anyv); [hmono| |].
+    + eapply hs_any. apply (hs_try mty _ _ anyv). destruct init as [|v]; [hret|].
+      eapply hs_bind; [hmono|apply h_index_value; hmono|]. intros t. apply hs_lift. intros; exact I.
+    + intros o. eapply hs_bind; [hmono|apply hs_add_leaf|]. intros vid.
+      apply hs_scoped; [hmono|intros; hmono|solve_ok|]. apply Hl. hmono.
+  - (* if *)
+    eapply hs_seq; [exact HP|apply h_index_value; exact HP|].
+    apply hs_iterM; [exact HP|]. intros body _.
+    apply hs_scoped; [exact HP|intros; hmono|solve_ok|]. apply Hl. exact HP.
+  - (* let *)
+    eapply hs_seq; [exact HP|apply h_values; exact HP|].
+    apply hs_scoped; [exact HP|intros; hmono|solve_ok|]. apply Hl. exact HP.
+  - (* multiclass *)
+    eapply hs_bind; [exact HP|apply hs_here|]. intros loc.
+    eapply hs_bind; [hmono|apply hs_add_multiclass|]. intros mid.
+    apply hs_scoped; [hmono|intros; hmono|solve_ok|].
+    eapply hs_seq; [hmono|apply h_targs; hmono|].
+    eapply hs_seq; [hmono|apply h_index_parents; hmono|apply Hl; hmono].
+Qed.
+
+(** ---- every state the indexer model reaches from a valid state is valid; in particular the final state of
+    EVERY workspace *)
+Theorem index_stmts_valid : forall files n l s, Valid s -> Valid (snd (iterM (index_stmt files n) l s)).
+Proof.
+  intros files n l s Hv.
+  assert (H : hs top (iterM (index_stmt files n) l) anyv).
+  { apply hs_iterM; [apply mono_top|]. intros x _. apply h_index_stmt. apply mono_top. }
+  apply (H s Hv I).
+Qed.
+
+Theorem index_ws_valid : forall w, Valid (index_ws w).
+Proof.
+  intros w. unfold index_ws. destruct (ws_files w) as [|root rest]; [apply valid_st0|].
+  apply index_stmts_valid. apply valid_st0.
 Qed.
